@@ -99,3 +99,42 @@ func DelimBody(rng *rand.Rand, n int, delim string) []byte {
 	}
 	return b
 }
+
+// BodyRange is the range of body lengths (bytes after the header) the
+// configuration can express, ignoring the maximum.
+func (c Cfg) BodyRange() (lo, hi int) {
+	lo, hi = 0, 1<<30
+	switch c.Kind {
+	case LF:
+		if c.Adjust > lo {
+			lo = c.Adjust
+		}
+		if c.Strip-c.Hdr() > lo {
+			lo = c.Strip - c.Hdr()
+		}
+		if c.Width <= 2 {
+			hi = int(FieldCap(c.Width)) + c.Adjust
+		}
+	case Fixed:
+		lo, hi = c.Fixed, c.Fixed
+	}
+	return
+}
+
+// RandFrame builds one admitted frame with a body of n bytes (clamped to BodyRange).
+func (c Cfg) RandFrame(rng *rand.Rand, n int) (wire []byte, ok bool) {
+	lo, hi := c.BodyRange()
+	if n < lo {
+		n = lo
+	}
+	if n > hi {
+		n = hi
+	}
+	switch c.Kind {
+	case LF:
+		return c.Frame(Bytes(rng, c.Offset), Bytes(rng, n))
+	case Delim:
+		return c.Frame(nil, DelimBody(rng, n, c.Delim))
+	}
+	return c.Frame(nil, Bytes(rng, n))
+}
